@@ -16,7 +16,7 @@ func init() {
 		Run: runOperandSymmetry,
 	})
 	register(&Rule{
-		ID: "C06.normalise-before-lookup", Prop: "C06", Also: []string{"C02"}, Floor: 3, Controls: 1,
+		ID: "C06.normalise-before-lookup", Prop: "C06", Also: []string{"C02", "C15"}, Floor: 3, Controls: 1,
 		Doc: "a string parameter used as the key of a payload map, an attribute-type map or an optional-attribute set is NFC-normalised first (names and keys are stored normalised, so a lookup with the raw name misses the member)",
 		Run: runNormaliseBeforeLookup,
 	})
@@ -337,22 +337,48 @@ func isNameMap(t types.Type) bool {
 }
 
 func runNormaliseBeforeLookup(rr *RuleRun) {
+	runNormaliseBeforeLookupIn(rr, "cty")
+	// the JSON decoder looks attribute names read from the document up in the requested object type: for
+	// every valid document the implied type (whose names cty.Object normalises) must accept the document
+	runNormaliseBeforeLookupIn(rr, "cty/json")
+}
+
+func runNormaliseBeforeLookupIn(rr *RuleRun, pkg string) {
 	c := rr.Ctx
-	info := c.Info("cty")
-	for _, fd := range c.SortedDecls("cty") {
-		if !fd.Name.IsExported() {
+	info := c.Info(pkg)
+	for _, fd := range c.SortedDecls(pkg) {
+		if pkg == "cty" && !fd.Name.IsExported() {
 			continue
 		}
-		// string parameters
+		// string parameters (package cty) / names read from the input by a call (package json)
 		params := map[types.Object]bool{}
-		for _, f := range fd.Type.Params.List {
-			for _, nm := range f.Names {
-				if o := info.Defs[nm]; o != nil {
+		if pkg == "cty" {
+			for _, f := range fd.Type.Params.List {
+				for _, nm := range f.Names {
+					if o := info.Defs[nm]; o != nil {
+						if bt, ok := o.Type().Underlying().(*types.Basic); ok && bt.Kind() == types.String {
+							params[o] = true
+						}
+					}
+				}
+			}
+		} else {
+			inspectNoLit(fd.Body, func(n ast.Node) bool {
+				as, ok := n.(*ast.AssignStmt)
+				if !ok || len(as.Rhs) != 1 || len(as.Lhs) != 2 {
+					return true
+				}
+				call, ok := ast.Unparen(as.Rhs[0]).(*ast.CallExpr)
+				if !ok || isCall(info, call, "cty.NormalizeString", "cty/ctystrings.Normalize") {
+					return true
+				}
+				if o := objOf(info, as.Lhs[0]); o != nil {
 					if bt, ok := o.Type().Underlying().(*types.Basic); ok && bt.Kind() == types.String {
 						params[o] = true
 					}
 				}
-			}
+				return true
+			})
 		}
 		if len(params) == 0 {
 			continue
@@ -388,7 +414,7 @@ func runNormaliseBeforeLookup(rr *RuleRun) {
 		facts := g.MustFacts(spec)
 		for _, ix := range sites {
 			o := objOf(info, ix.Index)
-			key := fmt.Sprintf("cty.%s/%s[%s]", declName(fd), trunc(exprStr(ix.X), 40), o.Name())
+			key := fmt.Sprintf("%s.%s/%s[%s]", pkg, declName(fd), trunc(exprStr(ix.X), 40), o.Name())
 			fs, ok := facts.At(ix)
 			if !ok {
 				continue
@@ -396,7 +422,7 @@ func runNormaliseBeforeLookup(rr *RuleRun) {
 			if fs.has("normalised", objKey(o)) {
 				rr.OK(key, ix.Pos(), o.Name()+" is NFC-normalised before it is used as a key")
 			} else {
-				rr.Violation(key, ix.Pos(), fmt.Sprintf("the parameter %s is used as a map key without having been passed through NormalizeString: the stored names are NFC-normalised, so a canonically equivalent but differently composed name misses its member (and a plain lookup then yields a null)", o.Name()))
+				rr.Violation(key, ix.Pos(), fmt.Sprintf("the name %s is used as a map key without having been passed through NormalizeString: the stored names are NFC-normalised, so a canonically equivalent but differently composed name misses its member (and a plain lookup then yields a null)", o.Name()))
 			}
 		}
 	}
